@@ -39,6 +39,12 @@ impl PduFlags {
 /*@fn file=src/pdu_loop/pdu_flags.rs impl="impl PduFlags" name=new canary=0
     ensures r.length == data_len, r.more_follows == more_follows, !r.circulated
 @*/
+/*@fn file=src/pdu_loop/pdu_flags.rs impl="impl PduFlags" name=len canary=0
+    ensures r == self.length
+@*/
+/*@fn file=src/pdu_loop/pdu_flags.rs impl="impl PduFlags" name=with_len canary=0
+    ensures r.length == len, !r.more_follows, !r.circulated
+@*/
     /// hand-written impl in pdu_flags.rs (bit layout checked by Kani frame_build / C19): needs 2 bytes
     #[verifier::external_body]
     pub fn unpack_from_slice(buf: &[u8]) -> (r: Result<PduFlags, WireError>)
@@ -155,13 +161,17 @@ impl CreatedFrame {
                     && final(self).last_header_location == old(self).last_header_location
                     && final(self).inner.area@ == old(self).inner.area@
         }),
-@closure 0 "|l: u16| -> (cr: usize)"
+@closure 0 "|l: u16| -> (cr: usize)" of=map_or
     ensures cr == (if l as nat > data.plen() { l as nat } else { data.plen() })
-@closure 1 "|| -> (cr: PduError)"
+@closure 0 "|| -> (cr: PduError)" of=ok_or_else
     ensures cr == PduError::TooLong
 @before "let header = PduHeader"
     proof {
         assert(pdu_buf@.len() == alloc_size);
+        // the length field of the datagram header is the length of its data area: max(payload, override) - what the space was
+        // reserved for and what the receiving side will index by
+        assert(flags.length as nat == (if len_override is Some && len_override->Some_0 as nat > data.plen() { len_override->Some_0 as nat } else { data.plen() }));
+        assert(!flags.more_follows && !flags.circulated);
     }
 @*/
 
@@ -191,6 +201,8 @@ impl CreatedFrame {
 @before "let header = PduHeader"
     proof {
         assert(pdu_buf@.len() == alloc_size);
+        // the header's length field is the number of bytes taken from the caller's slice
+        assert(flags.length as nat == sub_slice_len && !flags.more_follows && !flags.circulated);
     }
 @*/
 }
